@@ -52,6 +52,8 @@ pub struct Dec {
 	pub steps: u64,
 	/// consecutive Wait (ring full) iterations
 	pub waits: u64,
+	/// parked in the middle of a loop iteration by `arm_decoder_park`
+	pub parked: bool,
 }
 
 #[derive(Default)]
@@ -108,7 +110,39 @@ fn pacer_hook(ev: Event) {
 			// mid-callback injection (one deviation from "the decoder only runs between callbacks"): at the n-th pass of
 			// a non-decoder thread through a stream.* site, the decoder `dec` is granted `steps` iterations and the
 			// passing thread waits until they are done
-			if DEC_ID.with(|d| d.get()).is_some() || !site.starts_with("stream.") || !crate::rig::in_callback() {
+			if let Some(id) = DEC_ID.with(|d| d.get()) {
+				// decoder-side deviation: park this decoder at its n-th pass through a stream.* sync point (in the middle of a
+				// loop iteration) until the harness releases it - an audio callback can then be placed inside the iteration
+				if !site.starts_with("stream.") {
+					return;
+				}
+				let hit = {
+					let mut pk = PARK.lock().unwrap_or_else(|e| e.into_inner());
+					match pk.as_mut() {
+						Some(p) if p.dec == id && !p.fired => {
+							p.seen += 1;
+							if p.seen == p.nth {
+								p.fired = true;
+								p.site_hit = Some(site);
+								true
+							} else {
+								false
+							}
+						}
+						_ => false,
+					}
+				};
+				if hit {
+					let mut st = lock();
+					st.decs[id].parked = true;
+					CV.notify_all();
+					while st.decs[id].parked {
+						st = CV.wait(st).unwrap_or_else(|e| e.into_inner());
+					}
+				}
+				return;
+			}
+			if !site.starts_with("stream.") || !crate::rig::in_callback() {
 				return;
 			}
 			let fire = {
@@ -185,6 +219,38 @@ pub fn disarm_injection() -> (Option<&'static str>, u64) {
 	}
 }
 
+pub struct Park {
+	dec: usize,
+	nth: u64,
+	seen: u64,
+	fired: bool,
+	site_hit: Option<&'static str>,
+}
+static PARK: Mutex<Option<Park>> = Mutex::new(None);
+
+/// the next `step` of decoder `dec` stops at its nth pass (1-based) through a stream.* sync point, in the middle of a loop
+/// iteration, and returns; `release_decoder_park` lets it go on
+pub fn arm_decoder_park(dec: usize, nth: u64) {
+	*PARK.lock().unwrap_or_else(|e| e.into_inner()) = Some(Park { dec, nth, seen: 0, fired: false, site_hit: None });
+}
+/// release a parked decoder (it finishes its iteration and the permits it still holds); returns (site where it parked, passes seen)
+pub fn release_decoder_park(dec: usize) -> (Option<&'static str>, u64) {
+	let p = PARK.lock().unwrap_or_else(|e| e.into_inner()).take();
+	{
+		let mut st = lock();
+		if dec < st.decs.len() {
+			st.decs[dec].parked = false;
+		}
+		CV.notify_all();
+	}
+	// let it reach its gate (or exit)
+	step(dec, 0);
+	match p {
+		Some(p) => (p.site_hit, p.seen),
+		None => (None, 0),
+	}
+}
+
 /// ids of decoders registered so far
 pub fn count() -> usize {
 	lock().decs.len()
@@ -223,7 +289,7 @@ pub fn step_or(id: usize, k: u64, gone: &dyn Fn() -> bool) -> u64 {
 	let mut idle = 0;
 	loop {
 		let d = &st.decs[id];
-		if d.exited || (d.permits == 0 && d.at_gate) {
+		if d.exited || (d.permits == 0 && d.at_gate) || d.parked {
 			break;
 		}
 		if gone() {
@@ -244,7 +310,9 @@ pub fn step_or(id: usize, k: u64, gone: &dyn Fn() -> bool) -> u64 {
 			idle = 0;
 		}
 	}
-	st.decs[id].permits = 0;
+	if !st.decs[id].parked {
+		st.decs[id].permits = 0;
+	}
 	st.decs[id].steps - before
 }
 
